@@ -44,9 +44,9 @@ theorem pinned_fix_line_loss (k : Nat) (rs : List XRule) (h : endCtx k rs = fals
 
 /-- Concrete witness: a level-0 fixer and a level-2 fix-capable rule with `next_line` whose id sorts
 after it.  (Executable checks at build time.) -/
-def wA : XRule := ⟨"VPA001", 0, true, false, false, true, false,
+def wA : XRule := ⟨"VPA001", 0, true, false, false, true, false, fun _ => false,
   fun l => l == "aa", fun l => if l == "aa" then some "bb" else none, fun _ => none⟩
-def wZ : XRule := ⟨"ZZZ999", 2, true, false, false, true, false, fun _ => false, fun _ => none, fun _ => none⟩
+def wZ : XRule := ⟨"ZZZ999", 2, true, false, false, true, false, fun _ => false, fun _ => false, fun _ => none, fun _ => none⟩
 #guard endCtx 0 [wA, wZ] == false
 #guard (passG true 0 [wA, wZ] (fun _ => []) "aa\nzz" none).content == ""     -- pinned: truncated to 0 bytes …
 #guard (passG true 0 [wA, wZ] (fun _ => []) "aa\nzz" none).changed           -- … and announced as fixed
